@@ -20,7 +20,7 @@ use std::collections::{BTreeMap, HashSet};
 use std::path::Path;
 
 #[derive(Clone, Copy, PartialEq, Debug)]
-enum Slot {
+pub enum Slot {
 	Free(u64),
 	Head(u64),
 	Part(u64),
@@ -28,13 +28,13 @@ enum Slot {
 	Bad,
 }
 
-struct TableDump {
-	filled: u64,
-	free_head: u64,
-	slots: Vec<Slot>, // index 1..
+pub struct TableDump {
+	pub filled: u64,
+	pub free_head: u64,
+	pub slots: Vec<Slot>, // index 1..
 }
 
-fn dump_table(raw: &mut Raw, col: u8, tier: u8) -> Option<TableDump> {
+pub fn dump_table(raw: &mut Raw, col: u8, tier: u8) -> Option<TableDump> {
 	let es = raw.entry_size(tier);
 	let multipart = tier as usize >= raw.sizes.len();
 	let t = raw.table(col, tier).clone();
@@ -219,11 +219,14 @@ pub fn main(args: &[String]) -> i32 {
 	let mut out = Out::new(&args[2]);
 	let root = std::path::PathBuf::from(&args[2]);
 	let dir = root.join("db");
-	let mut rng = Rng::new(seed ^ 0xC14);
 	let mut oracle = String::new();
 	let mut dist: BTreeMap<String, u64> = BTreeMap::new();
 	let mut nontrivial = 0u64;
 	for hi in 0..count {
+		let mut rng = crate::util::case_rng(seed ^ 0xC14, hi);
+		if crate::util::skip_case(hi) {
+			continue
+		}
 		let (mut case, gen): (Case, &str) = match hi % 6 {
 			0 => (hist::gen_case(&mut rng, "c01"), "mixed"),
 			1 => (hist::gen_case(&mut rng, "c07"), "counted"),
